@@ -280,12 +280,17 @@ class _Eval:
 
     def s_If(self, st):
         cond = self.expr(st.test)
+        body, orelse = st.body, st.orelse
+        # canonical polarity: `if not c: A else: B` is the same branching as `if c: B else: A`
+        while cond[0] == "un" and cond[1] == "not":
+            cond = cond[2]
+            body, orelse = orelse, body
         a = self.fork()
         a.pc = self.pc + ((cond, True),)
-        a.block(st.body)
+        a.block(body)
         b = self.fork()
         b.pc = self.pc + ((cond, False),)
-        b.block(st.orelse)
+        b.block(orelse)
         self.join(cond, a, b)
 
     def s_Try(self, st):
@@ -557,12 +562,20 @@ class _Eval:
         parts = []
         for op, r in zip(e.ops, e.comparators):
             right = self.expr(r)
-            parts.append(("cmp", CMPOPS[type(op)], left, right))
+            o = CMPOPS[type(op)]
+            # canonical direction: the "more constant" operand on the right (`0 > x` is `x < 0`, `limit >= df.col` is `df.col <= limit`)
+            if o in _CMP_FLIP and _cmp_rank(left) > _cmp_rank(right):
+                parts.append(("cmp", _CMP_FLIP[o], right, left))
+            else:
+                parts.append(("cmp", o, left, right))
             left = right
         return parts[0] if len(parts) == 1 else ("bool", "and", tuple(parts))
 
     def e_IfExp(self, e):
-        return ("ifexp", self.expr(e.test), self.expr(e.body), self.expr(e.orelse))
+        c, a, b = self.expr(e.test), self.expr(e.body), self.expr(e.orelse)
+        while c[0] == "un" and c[1] == "not":
+            c, a, b = c[2], b, a
+        return ("ifexp", c, a, b)
 
     def e_JoinedStr(self, e):
         parts = []
@@ -910,6 +923,32 @@ def subst(term, mapping, _memo=None):
         out = I(out)
         _memo[term] = out
     return out
+
+
+def comm(t, op):
+    """Both operand orders of a commutative binary term ('*' on numbers / arrays, '+' on numbers): [(l, r), (r, l)] or []."""
+    if t[0] == "bin" and t[1] == op:
+        return [(t[2], t[3]), (t[3], t[2])]
+    return []
+
+
+_CMP_FLIP = {"<": ">", ">": "<", "<=": ">=", ">=": "<=", "==": "==", "!=": "!="}
+
+
+def _cmp_rank(t):
+    """How constant an operand of a comparison is: literal 3, bare parameter / global 2, attribute of self 1, anything else 0."""
+    if t[0] == "const":
+        return 3
+    if t[0] in ("param", "global"):
+        return 2
+    if t[0] == "un" and t[2][0] == "const":
+        return 3
+    r = t
+    while r[0] == "attr":
+        r = r[1]
+    if t[0] == "attr" and r == ("param", "self"):
+        return 1
+    return 0
 
 
 def resolve_phi(term, cond, value, _memo=None):
